@@ -193,7 +193,11 @@ class WSGIContainer:
         if "server" not in header_set:
             headers.append(("Server", "TornadoServer/%s" % tornado.version))
 
-        if request.method == "HEAD" or status_code == 304:
+        if (
+            request.method == "HEAD"
+            or status_code in (204, 304)
+            or 100 <= status_code < 200
+        ):
             # These responses have no body on the wire (HTTP1Connection refuses
             # to write one); the headers still describe the application's body.
             body = b""
